@@ -106,6 +106,11 @@ func (e *kvElection) checkKeyAndReelect(ctx context.Context) {
 		return
 	}
 
+	// The read may have been answered before this instance won the election.
+	if e.IsLeader() {
+		return
+	}
+
 	currentLeaderID := e.LeaderID()
 	if currentLeaderID != "" && currentLeaderID != newLeaderID {
 		log := e.getLogger()
